@@ -19,6 +19,7 @@ from pathlib import Path
 VERIF = Path(__file__).resolve().parent.parent
 REPO = Path(os.environ.get('VERIF_REPO', '/repo'))
 KNOWN = VERIF / 'known_findings.json'
+OUT = Path(os.environ.get('VERIF_OUT', str(VERIF)))   # evidence/ and replay/ live here (self-test redirects it)
 
 
 class AnalysisError(Exception):
@@ -114,9 +115,9 @@ class Check:
             print(f'KNOWN-FINDING: property={self.pid} {f.rule} {f.module}::{f.function} :: '
                   f'{norm_ws(f.construct)[:160]} -- {f.message[:200]}')
         rc = 0
-        replay_dir = VERIF / 'replay'
+        replay_dir = OUT / 'replay'
         if new:
-            replay_dir.mkdir(exist_ok=True)
+            replay_dir.mkdir(parents=True, exist_ok=True)
             for f in new:
                 h = hashlib.sha1(f.key.encode()).hexdigest()[:10]
                 p = replay_dir / f'{self.pid}-{f.rule}-{h}.json'
@@ -161,8 +162,8 @@ class Check:
             'assumptions': self.assumptions or ['the rules decide structural necessary conditions only'],
             'wall_s': round(time.time() - self.t0, 3), 'violations': nviol,
         }
-        d = VERIF / 'evidence'
-        d.mkdir(exist_ok=True)
+        d = OUT / 'evidence'
+        d.mkdir(parents=True, exist_ok=True)
         (d / f'{self.pid}.json').write_text(json.dumps(ev, indent=1, default=str))
 
 
